@@ -89,6 +89,44 @@ func EncodeLogRecord(logRecord *LogRecord, header []byte, buf *bytebufferpool.By
 	buf.B = append(buf.B, logRecord.Value...)
 }
 
+// 校验编码数据的各长度字段与实际数据长度严格一致, 保证后续解码不会越界访问
+func checkLogRecord(data []byte) bool {
+	if len(data) < 1 {
+		return false
+	}
+	idx := 1
+	keySize, n := binary.Varint(data[idx:])
+	if n <= 0 || keySize < 0 {
+		return false
+	}
+	idx += n
+	valueSize, n := binary.Varint(data[idx:])
+	if n <= 0 || valueSize < 0 {
+		return false
+	}
+	idx += n
+	_, n = binary.Uvarint(data[idx:])
+	if n <= 0 {
+		return false
+	}
+	idx += n
+	rest := int64(len(data) - idx)
+	return keySize <= rest && valueSize == rest-keySize
+}
+
+// 校验编码数据的位置信息字段完整且不超出取值范围
+func checkHintRecord(data []byte) bool {
+	idx := 0
+	for i := 0; i < 4; i++ {
+		v, n := binary.Uvarint(data[idx:])
+		if n <= 0 || v > 1<<32-1 {
+			return false
+		}
+		idx += n
+	}
+	return true
+}
+
 func DecodeLogRecord(data []byte) *LogRecord {
 	// type
 	recordType := data[0]
